@@ -50,7 +50,9 @@ TRANSLATORS = {
            "coq/lib/PyClen.v (__end_of_response__ of the three classes -> "
            "gen/ClenGen.v)",
     "C09": _T + "harness/py2v.py + coq/lib/Py.v (CachedInput.read/readline "
-           "-> gen/CachedGen.v)",
+           "-> gen/CachedGen.v); harness/py2v_reqinput.py + "
+           "coq/lib/PyReqInput.v (CachedInput.__init__, Request.input / read "
+           "/ data / read_chunk -> gen/ReqInputGen.v)",
     "C11": _T + "harness/py2v_digest.py + coq/lib/PyDigest.v (check_response,"
            " check_credentials, check_digest handler -> gen/DigestGen.v)",
     "C13": _T + "harness/py2v_hidden.py + coq/lib/PyBytes.v (session.hidden "
@@ -81,7 +83,9 @@ TRANSLATORS.update({
            "coq/lib/PyMulti.v (_skip_to_boundary, skip_lines, read_multi -> "
            "gen/MultiGen.v)",
     "C14": _T + "harness/py2v_headers.py + coq/lib/PyHeaders.v (class "
-           "Headers -> gen/HeadersGen.v)",
+           "Headers -> gen/HeadersGen.v); harness/py2v_latin.py + "
+           "coq/lib/PyLatin.v (Headers.iso88591, utf8, __iter__ -> "
+           "gen/LatinGen.v)",
     "C17": _T + "harness/py2v_shared.py (syntactic census of process-wide "
            "mutable objects, their writers and escapes -> gen/SharedGen.v; "
            "an under-approximation, judged by model/SharedState.v)",
